@@ -20,6 +20,7 @@ type Renderer struct {
 	fn     *ssa.Function
 	memo   map[ssa.Value]string
 	inprog map[ssa.Value]bool
+	depth  int
 	allocN map[*ssa.Alloc]int
 	// stores to field addresses rooted at an alloc, by alloc
 	fieldStores map[*ssa.Alloc][]*ssa.Store
@@ -261,13 +262,40 @@ func (r *Renderer) E(v ssa.Value) string {
 	if s, ok := r.memo[v]; ok {
 		return s
 	}
-	if r.inprog[v] {
-		return "@"
+	// only φ-nodes break cycles (every cycle in SSA goes through one): "@" always denotes the
+	// innermost enclosing φ of the string, whatever value the rendering started from
+	breaker := false
+	switch x := v.(type) {
+	case *ssa.Phi:
+		breaker = true
+	case *ssa.UnOp:
+		// loads of local-variable fields form cycles through memory (x.f = g(x.f) in a loop)
+		if x.Op == token.MUL {
+			if a, path := rootAlloc(x.X); a != nil && path != "" {
+				breaker = true
+			}
+		}
 	}
-	r.inprog[v] = true
+	if breaker {
+		if r.inprog[v] {
+			return "@"
+		}
+		r.inprog[v] = true
+		s := r.render(v)
+		delete(r.inprog, v)
+		if len(r.inprog) == 0 {
+			r.memo[v] = s
+		}
+		return s
+	}
+	r.depth++
+	if r.depth > 400 {
+		r.depth--
+		return "…"
+	}
 	s := r.render(v)
-	delete(r.inprog, v)
-	if !strings.Contains(s, "@") {
+	r.depth--
+	if len(r.inprog) == 0 {
 		r.memo[v] = s
 	}
 	return s
@@ -431,9 +459,50 @@ func (r *Renderer) render(v ssa.Value) string {
 	case *ssa.Extract:
 		return r.E(x.Tuple) + "#" + fmt.Sprint(x.Index)
 	case *ssa.Phi:
+		// the hidden counter of a range loop (-1, then index): rendered relative to the canonical index
+		if len(x.Edges) >= 2 {
+			init, back := 0, 0
+			for _, e := range x.Edges {
+				if isConstIntVal(e, -1) {
+					init++
+				} else if bo, ok := e.(*ssa.BinOp); ok && bo.Op == token.ADD && bo.X == ssa.Value(x) && isConstIntVal(bo.Y, 1) {
+					back++
+				}
+			}
+			if init == 1 && init+back == len(x.Edges) {
+				return "(φ{(1 + @)|0} - 1)"
+			}
+		}
+		// flatten nested φ-nodes: the set of leaf values does not depend on the CFG shape
 		var alts []string
-		for _, e := range x.Edges {
+		group := map[*ssa.Phi]bool{x: true}
+		var leaves []ssa.Value
+		var collect func(ph *ssa.Phi)
+		collect = func(ph *ssa.Phi) {
+			for _, e := range ph.Edges {
+				if np, ok := e.(*ssa.Phi); ok && !isRangeCounter(np) {
+					if !group[np] {
+						group[np] = true
+						collect(np)
+					}
+					continue
+				}
+				leaves = append(leaves, e)
+			}
+		}
+		collect(x)
+		for ph := range group {
+			if ph != x {
+				r.inprog[ph] = true
+			}
+		}
+		for _, e := range leaves {
 			alts = append(alts, r.E(e))
+		}
+		for ph := range group {
+			if ph != x {
+				delete(r.inprog, ph)
+			}
 		}
 		alts = dedupe(alts)
 		if len(alts) == 1 {
@@ -441,7 +510,25 @@ func (r *Renderer) render(v ssa.Value) string {
 		}
 		return "φ{" + strings.Join(alts, "|") + "}"
 	case *ssa.BinOp:
-		return r.binop(x.Op, r.E(x.X), r.E(x.Y))
+		// the index of a range loop (φ{-1, self}+1) takes the values 0,1,2,… exactly like the counter of
+		// an index loop (φ{0, self+1}): both are rendered the same, so the loop form does not matter
+		if x.Op == token.ADD && isConstIntVal(x.Y, 1) {
+			if ph, ok := x.X.(*ssa.Phi); ok && len(ph.Edges) >= 2 {
+				init, back := 0, 0
+				for _, e := range ph.Edges {
+					switch {
+					case isConstIntVal(e, -1):
+						init++
+					case e == ssa.Value(x):
+						back++
+					}
+				}
+				if init == 1 && init+back == len(ph.Edges) {
+					return "φ{(1 + @)|0}"
+				}
+			}
+		}
+		return r.cmp(x.Op, x.X, x.Y)
 	case *ssa.Call:
 		base := r.call(&x.Call)
 		if pureCall(&x.Call) {
@@ -804,4 +891,120 @@ func pureCall(c *ssa.CallCommon) bool {
 		return true
 	}
 	return false
+}
+
+func isConstIntVal(v ssa.Value, n int64) bool {
+	c, ok := v.(*ssa.Const)
+	if !ok || c.Value == nil {
+		return false
+	}
+	i, ok := constant.Int64Val(constant.ToInt(c.Value))
+	return ok && i == n
+}
+
+func isRangeCounter(x *ssa.Phi) bool {
+	if len(x.Edges) < 2 {
+		return false
+	}
+	init, back := 0, 0
+	for _, e := range x.Edges {
+		if isConstIntVal(e, -1) {
+			init++
+		} else if bo, ok := e.(*ssa.BinOp); ok && bo.Op == token.ADD && bo.X == ssa.Value(x) && isConstIntVal(bo.Y, 1) {
+			back++
+		}
+	}
+	return init == 1 && init+back == len(x.Edges)
+}
+
+// nonNeg: the value can never be negative (len/cap results, unsigned integers).
+func nonNeg(v ssa.Value) bool {
+	if c, ok := v.(*ssa.Call); ok {
+		if b, ok := c.Call.Value.(*ssa.Builtin); ok && (b.Name() == "len" || b.Name() == "cap") {
+			return true
+		}
+	}
+	if cv, ok := v.(*ssa.Convert); ok && isFloat(cv.Type()) == isFloat(cv.X.Type()) {
+		if bt, ok := cv.Type().Underlying().(*types.Basic); ok && bt.Info()&types.IsUnsigned != 0 {
+			return true
+		}
+	}
+	if bt, ok := v.Type().Underlying().(*types.Basic); ok && bt.Info()&types.IsUnsigned != 0 {
+		return true
+	}
+	return false
+}
+
+// bigCmp: v is (*big.Int).Cmp(a, b) → (a, b)
+func bigCmp(v ssa.Value) (ssa.Value, ssa.Value, bool) {
+	c, ok := v.(*ssa.Call)
+	if !ok {
+		return nil, nil, false
+	}
+	f := calleeFunc(&c.Call)
+	if f == nil || f.FullName() != "(*math/big.Int).Cmp" || len(c.Call.Args) != 2 {
+		return nil, nil, false
+	}
+	return c.Call.Args[0], c.Call.Args[1], true
+}
+
+// cmp renders a binary operation; comparisons are brought into one canonical spelling:
+//   - a.Cmp(b) OP 0 on big integers becomes a OP b,
+//   - for values that cannot be negative, x<1, x<=0 become 0==x and 0<x, 1<=x become 0!=x,
+//   - > and >= are mirrored, operands of == and != sorted.
+func (r *Renderer) cmp(op token.Token, x, y ssa.Value) string {
+	switch op {
+	case token.EQL, token.NEQ, token.LSS, token.LEQ, token.GTR, token.GEQ:
+	default:
+		return r.binop(op, r.E(x), r.E(y))
+	}
+	if a, b, ok := bigCmp(x); ok && isConstIntVal(y, 0) {
+		return r.cmp(op, a, b)
+	}
+	if a, b, ok := bigCmp(y); ok && isConstIntVal(x, 0) {
+		return r.cmp(mirror(op), a, b)
+	}
+	// mirror so that the operator is one of == != < <=
+	if op == token.GTR || op == token.GEQ {
+		op, x, y = mirror(op), y, x
+	}
+	switch {
+	case op == token.LSS && isConstIntVal(y, 1) && nonNeg(x), op == token.LEQ && isConstIntVal(y, 0) && nonNeg(x):
+		return r.binop(token.EQL, "0", r.E(x))
+	case op == token.LSS && isConstIntVal(x, 0) && nonNeg(y), op == token.LEQ && isConstIntVal(x, 1) && nonNeg(y):
+		return r.binop(token.NEQ, "0", r.E(y))
+	}
+	return r.binop(op, r.E(x), r.E(y))
+}
+
+func mirror(op token.Token) token.Token {
+	switch op {
+	case token.LSS:
+		return token.GTR
+	case token.GTR:
+		return token.LSS
+	case token.LEQ:
+		return token.GEQ
+	case token.GEQ:
+		return token.LEQ
+	}
+	return op
+}
+
+func negOp(op token.Token) token.Token {
+	switch op {
+	case token.EQL:
+		return token.NEQ
+	case token.NEQ:
+		return token.EQL
+	case token.LSS:
+		return token.GEQ
+	case token.GEQ:
+		return token.LSS
+	case token.GTR:
+		return token.LEQ
+	case token.LEQ:
+		return token.GTR
+	}
+	return op
 }
